@@ -244,7 +244,7 @@ MANIFEST_TEXT = {
     },
     "C16": {
         "technique": "Lean 4 theorems (rule-set selection, effective rule, function resolution) + differential correspondence",
-        "text": "Theorems: the outermost struct uses its typed set if non-empty else the unscoped one; a nested struct only its own typed set (no leak, also with shared field names); a field's effective rule is the set's non-empty rule instead of the tag rule, else the tag rule under the requested tag; functions resolve per-call, then registered, then built-in; an unknown name yields one clause and the loop continues. Tie: walk-rm stream (typed/unscoped/both/empty sets, three tag names, local and global marker functions that shadow each other) and walk-gfn (a process whose global table has a name registered twice and three built-in names replaced).",
+        "text": "Theorems: the outermost struct uses its typed set if non-empty else the unscoped one; a nested struct only its own typed set (no leak, also with shared field names); a field's effective rule is the set's non-empty rule instead of the tag rule, else the tag rule under the requested tag; functions resolve per-call, then registered, then built-in; an unknown name yields one clause and the loop continues; C16_setrule_last_wins / other_key / order_indep (the registry behind SetRule: the last registration for a key wins, other keys are untouched, the order of registrations for different keys is irrelevant). Tie: walk-rm stream (typed/unscoped/both/empty sets, three tag names, local and global marker functions that shadow each other) and walk-gfn (a process whose global table has a name registered twice and three built-in names replaced) and walk-gfn-seq (one sequential history in which names are registered again between calls, incl. names that earlier calls used as unknown ones; every call is judged with the table of that moment).",
         "note": "Trusted: Lean kernel; reflect.Type identity carried on the wire as Type.String() plus a marker for look-alike types; correspondence.",
     },
     "C17": {
